@@ -142,7 +142,7 @@ static_assert(FindPrototypeByCallable<PL, K1>::index == 0 && FindPrototypeByCall
 	&& FindPrototypeByCallable<PL, K7>::index == 0, "Binds table of HetGen.tla does not match the library");
 static_assert(FindPrototypeByArgs<PL>::index == 0 && FindPrototypeByArgs<PL, int &>::index == 1 && FindPrototypeByArgs<PL, long &>::index == 1
 	&& FindPrototypeByArgs<PL, const TS &>::index == 2 && FindPrototypeByArgs<PL, const Big &>::index == 3 && FindPrototypeByArgs<PL, int &, const TS &>::index == 4
-	&& FindPrototypeByArgs<PL, char &>::index == 1, "Accepts table of HetGen.tla does not match the library");
+	&& FindPrototypeByArgs<PL, char &>::index == 1 && FindPrototypeByArgs<PL, float &>::index == 1, "Accepts table of HetGen.tla does not match the library");
 
 alignas(16) static unsigned char g_storage[sizeof(Obj) + 64];
 static Obj * obj;
@@ -259,6 +259,7 @@ static void invoke(int shape)
 #if W_HFILTER == 0
 	case 3: { long v = uid; call(v); } break;
 	case 7: { char c = (char)uid; call(c); } break;
+	case 8: { float f = (float)uid; call(f); } break;
 #endif
 	case 4: { const TS s(uid); call(s); } break;
 	case 5: { const Big b(uid); call(b); } break;
@@ -280,6 +281,7 @@ static void enqueue(int shape)
 	case 4: if(uid % 2) { const TS s(uid); obj->enqueue(1, s); } else { obj->enqueue(1, TS(uid)); } break;
 	case 5: { const Big b(uid); obj->enqueue(1, b); } break;
 	case 6: { int v = uid; const TS s(uid); obj->enqueue(1, v, s); } break;
+	case 8: { float f = (float)uid; obj->enqueue(1, f); } break;       // converts to the int of prototype 2; its own representation is another one
 	default: { char c = (char)uid; obj->enqueue(1, c); } break;
 	}
 	evx("nq", 0, shape, 0, 0, uid);
